@@ -78,10 +78,16 @@ def feasibility_oracle(ctx: Ctx, problem, zones):
             Ts, Vs = [r[0] for r in rows], [r[1] for r in rows]
             want = greedy(Ts, Vs, us, side, total)
             got = [d for *_, d in us]
+            # cause classifier of finding C04-rank-real-supply: ranking by real supply temperature differs
+            # from ranking by the shifted level the process sees
+            real = zd["hot_supply"] if side == "hot" else zd["cold_supply"]
+            shifted = [hi for _, lo, hi, _ in us] if side == "hot" else [lo for _, lo, hi, _ in us]
+            rank = lambda v: sorted(range(len(v)), key=lambda i: v[i])
+            cause = "utility_rank_by_real_supply" if rank(real) != rank(shifted) else None
             ctx.dist[f"ladder_{side}_{len(us)}"] += 1
             for (n, lo, hi, d), w in zip(us, want):
                 if abs(d - w) > 1e-3 + 1e-5 * scale:
-                    ctx.oracle_fail(case, f"{side} ladder {[(x[0], x[1], x[2]) for x in us]}: duties {got}, lowest-grade-first optimum {want}", None, "lowest_grade_first")
+                    ctx.oracle_fail(case, f"{side} ladder {[(x[0], x[1], x[2]) for x in us]}: duties {got}, lowest-grade-first optimum {want}", cause, "lowest_grade_first")
                     break
 
 
